@@ -30,3 +30,23 @@ void h_dec_teardown(void) {
     V_ASSERT(e == EB_ErrorNone, "deinit_handle returns success");
     V_CANARY("decoder teardown returns");
 }
+
+/* C17 U17.3: two decoder instances alive in one process: tearing one down must not touch the other's allocations.
+ * KNOWN FINDING KF-C17-decmap: the allocation-list head svt_dec_memory_map is ONE process global shared by all
+ * decoder handles; with -DKF_C17_SINGLE the second instance is excluded (witness region = two live handles). */
+void h_two_decoders(void) {
+    V_NONDET(int, two);
+#ifdef KF_C17_SINGLE
+    V_ASSUME(!two);
+#endif
+    EbComponentType *a = malloc(sizeof(*a)), *b = malloc(sizeof(*b));
+    V_ASSUME(a && b);
+    V_ASSUME(init_svt_av1_decoder_handle(a) == EB_ErrorNone && ((EbDecHandle *)a->p_component_private)->memory_map != NULL);
+    if (two) V_ASSUME(init_svt_av1_decoder_handle(b) == EB_ErrorNone && ((EbDecHandle *)b->p_component_private)->memory_map != NULL);
+    V_ASSERT(alloc_some((EbDecHandle *)a->p_component_private, 1) == EB_ErrorNone, "instance A allocates");
+    if (two) V_ASSERT(alloc_some((EbDecHandle *)b->p_component_private, 1) == EB_ErrorNone, "instance B allocates");
+    V_ASSERT(svt_av1_dec_deinit(a) == EB_ErrorNone && svt_av1_dec_deinit_handle(a) == EB_ErrorNone, "instance A torn down");
+    if (two) V_ASSERT(svt_av1_dec_deinit(b) == EB_ErrorNone && svt_av1_dec_deinit_handle(b) == EB_ErrorNone, "instance B torn down after A: its memory is still its own");
+    else free(b);
+    V_CANARY("two decoders torn down");
+}
